@@ -17,7 +17,7 @@ SOLVERS = {
 STATS = {'queries': 0, 'time': 0.0, 'by_solver': {}, 'by_result': {}}
 
 
-def build_script(assertions, opts=None, want_model=None, extra=None):
+def build_script(assertions, opts=None, want_model=None, extra=None, abstract=False):
     """assertions: list of Bool terms.  Returns (script text, axiom group counts, printer)."""
     opts = opts or {}
     assertions = [a for a in assertions if a is not True]
@@ -25,7 +25,7 @@ def build_script(assertions, opts=None, want_model=None, extra=None):
         return None, {}, None
     ax = Axioms(opts)
     axs = ax.collect(assertions) if opts.get('axioms', True) else []
-    pr = Printer()
+    pr = Printer(abstract_nonlinear=abstract)
     # opaque applications become constants (Ackermannised)
     body = []
     for a in assertions:
